@@ -423,6 +423,49 @@ def nested_handover():  # noqa: ANN201
                                                  "fam:nested_handover")  # fmt: skip
 
 
+def held_request_handover():  # noqa: ANN201
+    """the host of a task group holds 1-2 native cancellation requests (non-zero
+    Task.cancelling() baseline); a child's own scope cancels itself and cannot absorb because
+    the group gets cancelled too, at every cycle around it; also the same with the host's own
+    nested scopes.  The host's count has to be back at the baseline after the group."""
+    for cfg in CFGS:
+        for held in (1, 2):
+            for redeliver in (0, 2):
+                for nest in (1, 2):
+                    inner: list = [["cancel", "s1"], ["cleanup", [["forever"]], 2, "reraise"]]
+                    for _ in range(redeliver):
+                        inner = [["catch_then", inner, [["cp", 1]]]]
+
+                    cbody: list = [["scope", "s1", False, None, inner + [["cp", 1]]]]
+                    if nest == 2:
+                        cbody = [["scope", "s0", False, None, cbody + [["cp", 1]]]]
+
+                    child = {"tid": 1, "how": "start_soon", "body": cbody + [["cp", 1]]}
+                    for a in range(0, 6):
+                        for place in ("before", "after"):
+                            for holder in ("root", "member"):
+                                grp = [["hold", held], ["group", 1, [child], [["sleep", 1]]], ["cp", 2]]
+                                if holder == "member":
+                                    mid = {"tid": 9, "how": "start_soon", "body": grp}
+                                    grp = [["group", 0, [mid], [["cp", 1]]], ["cp", 1]]
+
+                                yield _p(cfg, grp + [["sleep", 0.5]],
+                                         [{"at": a, "place": place, "do": ["cancel", "g1"]}],
+                                         "fam:held_request_handover")  # fmt: skip
+
+            # the same baseline under the host's own scope histories
+            for depth in (1, 2, 3):
+                for a in (1, 2, 3):
+                    body: list = [["cleanup", [["forever"]], 2, "reraise"]]
+                    for i in reversed(range(depth)):
+                        body = [["scope", f"s{i + 1}", False, None, body + [["cp", 1]]]]
+
+                    agents = [{"at": a + i, "place": "after", "do": ["cancel", f"s{depth - i}"]}
+                              for i in range(depth)]  # fmt: skip
+                    yield _p(cfg, [["hold", held]] + body + [["cp", 2], ["sleep", 0.5]], agents,
+                             "fam:held_request_handover")  # fmt: skip
+
+
 NINF = float("-inf")
 
 
